@@ -4,7 +4,7 @@
 budget=${1:-40}
 out=/verif/mutants/RESULTS.txt
 : > $out.tmp
-for d in /verif/mutants/C*/; do
+for d in ${MUTANT_DIRS:-/verif/mutants/C*/}; do
   prop=$(basename $d)
   for m in $d*.diff; do
     [ -f "$m" ] || continue
